@@ -196,10 +196,13 @@ class Wrapp(util.WrapperMixin):
             # have one namespace level, then replace name each time
             self._push_splicer("namespace")
             self._push_splicer("XXX") # placer holder
+        ndecls = len(self.module_init_decls)
         for ns in node.namespaces:
             if ns.wrap.python:
                 self.wrap_namespace(ns)
                 self.register_submodule(ns, modinfo)
+        # Submodules registered by this module (nested namespaces).
+        own_init_decls = self.module_init_decls[ndecls:]
         if top:
             self._pop_splicer("XXX")  # This name will not match since it is replaced.
             self._pop_splicer("namespace")
@@ -257,7 +260,7 @@ class Wrapp(util.WrapperMixin):
             self.wrap_functions(None, node.functions, fileinfo)
             self._pop_splicer("function")
 
-        self.write_module(node, modinfo, fileinfo, top)
+        self.write_module(node, modinfo, fileinfo, top, own_init_decls)
 
     def register_submodule(self, ns, modinfo):
         """Create code to add submodule to a module.
@@ -2580,7 +2583,7 @@ extern PyObject *{PY_prefix}error_obj;
         #            os.path.join(self.config.python_dir, fname))
         self.write_output_file(fname, self.config.python_dir, output)
 
-    def write_module(self, node, modinfo, fileinfo, top):
+    def write_module(self, node, modinfo, fileinfo, top, own_init_decls=[]):
         """
         Write the Python extension module.
         Used with a Library or Namespace node
@@ -2620,6 +2623,10 @@ extern PyObject *{PY_prefix}error_obj;
 
         if top:
             output.extend(self.module_init_decls)
+        elif own_init_decls:
+            # A submodule with submodules of its own (nested namespaces).
+            output.extend(own_init_decls)
+            append_format(output, "#define INITERROR return {nullptr}", fmt)
         output.extend(modinfo.define_arraydescr)
 
         self._create_splicer("additional_functions", output)
